@@ -27,8 +27,8 @@ impl TraitFn {
     pub fn with_cfg_attrs_of(mut self, fn_attrs: &[syn::Attribute]) -> Self {
         self.attrs = fn_attrs
             .iter()
-            .filter(|attr| attr.path().is_ident("cfg"))
-            .cloned()
+            .filter_map(|attr| cfg_part(&attr.meta))
+            .map(|meta| syn::parse_quote! { #[#meta] })
             .collect();
         self
     }
@@ -39,6 +39,30 @@ impl TraitFn {
         } else {
             None
         }
+    }
+}
+
+/// What an attribute says about conditional compilation: `cfg(..)` itself, and `cfg_attr(predicate, ..)` reduced to the
+/// `cfg` entries among the attributes it applies
+fn cfg_part(meta: &syn::Meta) -> Option<syn::Meta> {
+    if meta.path().is_ident("cfg") {
+        Some(meta.clone())
+    } else if meta.path().is_ident("cfg_attr") {
+        let list = meta.require_list().ok()?;
+        let mut entries = list
+            .parse_args_with(syn::punctuated::Punctuated::<syn::Meta, syn::token::Comma>::parse_terminated)
+            .ok()?
+            .into_iter();
+        let predicate = entries.next()?;
+        let cfg_entries: Vec<syn::Meta> = entries.filter_map(|entry| cfg_part(&entry)).collect();
+
+        if cfg_entries.is_empty() {
+            None
+        } else {
+            Some(syn::parse_quote! { cfg_attr(#predicate, #(#cfg_entries),*) })
+        }
+    } else {
+        None
     }
 }
 
